@@ -200,7 +200,30 @@ def feature_matrix_spec():
                                   {"name": "X-Ids", "in": "header", "schema": {"type": "array", "items": {"type": "integer"}}}],
                                   "responses": {"200": {"description": "ok", "content": {"application/octet-stream": {"schema": {"type": "string", "format": "binary"}}}},
                                                 "404": {"description": "nf"}}}}
+    # one-directional usage reaching a type only through containers (map values, arrays, optional, nested maps)
+    R = lambda t: {"$ref": f"#/components/schemas/{t}"}
+    paths["/only/out"] = {"get": {"operationId": "only_out", "responses": {"200": {"description": "ok", "content": {"application/json": {"schema": R("OutBag")}}}}}}
+    paths["/only/in"] = {"post": {"operationId": "only_in", "requestBody": {"required": True, "content": {"application/json": {"schema": R("InBag")}}}, "responses": {"204": {"description": "n"}}}}
+    # a type used DIRECTLY in one direction and only through a container in the other
+    paths["/shared/in"] = {"post": {"operationId": "shared_in", "parameters": [{"name": "kind", "in": "query", "schema": R("SharedKind")}],
+                                    "requestBody": {"required": True, "content": {"application/json": {"schema": R("SharedLeaf")}}}, "responses": {"204": {"description": "n"}}}}
+    paths["/shared/out"] = {"get": {"operationId": "shared_out", "responses": {"200": {"description": "ok", "content": {"application/json": {"schema": R("SharedOutBag")}}}}}}
+    paths["/shared2/out"] = {"get": {"operationId": "shared2_out", "responses": {"200": {"description": "ok", "content": {"application/json": {"schema": R("Shared2Leaf")}}}}}}
+    paths["/shared2/in"] = {"post": {"operationId": "shared2_in", "requestBody": {"required": True, "content": {"application/json": {"schema": R("Shared2InBag")}}}, "responses": {"204": {"description": "n"}}}}
+    mapbag = lambda leaf, leaf2: {"type": "object", "properties": {     # reached ONLY through map values
+        "by_key": {"type": "object", "additionalProperties": R(leaf)},
+        "lists": {"type": "object", "additionalProperties": {"type": "array", "items": R(leaf2)}}}}
+    bag = lambda leaf, leaf2: {"type": "object", "properties": {
+        "by_key": {"type": "object", "additionalProperties": R(leaf)},
+        "lists": {"type": "object", "additionalProperties": {"type": "array", "items": R(leaf2)}},
+        "many": {"type": "array", "items": R(leaf)}, "maybe": {"oneOf": [R(leaf2), {"type": "null"}]}}}
     return {"openapi": "3.1.0", "info": {"title": "Matrix", "version": "1"}, "paths": paths,
             "components": {"schemas": {"Item": {"type": "object", "required": ["id"], "properties": {"id": {"type": "integer"}, "name": {"type": "string"},
                                                                                              "sub": {"$ref": "#/components/schemas/Sub"}}},
-                                       "Sub": {"type": "object", "properties": {"k": {"type": "string", "enum": ["a", "b"]}}}}}}
+                                       "Sub": {"type": "object", "properties": {"k": {"type": "string", "enum": ["a", "b"]}}},
+                                       "OutBag": bag("OutLeaf", "OutKind"), "InBag": bag("InLeaf", "InKind"),
+                                       "SharedOutBag": mapbag("SharedLeaf", "SharedKind"), "Shared2InBag": mapbag("Shared2Leaf", "SharedKind"),
+                                       "SharedLeaf": {"type": "object", "properties": {"s": {"type": "string"}}}, "SharedKind": {"type": "string", "enum": ["k1", "k2"]},
+                                       "Shared2Leaf": {"type": "object", "properties": {"t": {"type": "string"}}},
+                                       "OutLeaf": {"type": "object", "properties": {"v": {"type": "string"}}}, "OutKind": {"type": "string", "enum": ["o1", "o2"]},
+                                       "InLeaf": {"type": "object", "properties": {"w": {"type": "integer"}}}, "InKind": {"type": "string", "enum": ["i1", "i2"]}}}}
